@@ -69,6 +69,10 @@ def run(ctx):
             metas.append(desc)
         # oracle: the statement itself -- exact tree equality with the parse of the textual substitution
         has_abbrev = bool(PKG_RE.search(s) or TC_RE.search(s))
+        ctx.dist("condition.packages", len(PKG_RE.findall(s)))
+        ctx.dist("condition.time_conditions", len(TC_RE.findall(s)))
+        ctx.dist("condition.flags", f"packages={rp} time_conditions={rt}")
+        ctx.dist("condition.outcome", "tree" if res[0] == "ok" else str(res[1]))
         n_abbrev += 1 if has_abbrev else 0
         unknown = rp and any(tab[m.group(1)] is None for m in PKG_RE.finditer(s))
         bad_rep = rp and any(m.group(2) and not _rep_ok(m.group(2)) for m in PKG_RE.finditer(s))
@@ -132,7 +136,7 @@ def run(ctx):
                             "expression and for every package text; compared: exact resolved tree or exception class; also AHB expressions with abbreviations inside their parts. "
                             "Oracle: resolved tree == parse(bracketed textual substitution) exactly; unknown package -> NotImplementedError; non-trivial = expressions containing an abbreviation")
     ctx.sample(metas[1] if len(metas) > 1 else {})
-    return finish(ctx, assumptions=["the forest of the substituted TEXT equals the substituted forest: established by the oracle (exact tree equality on ahbicht), the theorem is at forest level",
+    return finish(ctx, assumptions=["C10_textual_substitution is about the parser MODEL applied to the substituted text; that ahbicht's parser returns the same tree for that text is the oracle (exact tree equality) and the C01 correspondence",
                                     "repeatabilities n..m with n>m abort with ValueError (attrs validator); excluded from the substitution oracle, covered by the correspondence"])
 
 
